@@ -182,13 +182,14 @@ def compare_case(chk, c, cxx, std, rows, walk, stats):
         what = 'present-but-not-in-xml' if f.get('xml') is None else (
             'missing' if f.get('impl') is None else 'different')
         chk.report_failure({
-            'kind': 'impl≠spec', 'config': {'cxx': cxx, 'std': std}, 'schema_xml': xml, 'entity': f['entity'],
+            'kind': 'impl≠spec', 'config': {'cxx': cxx, 'std': std}, 'schema_xml': xml, 'schema_dict': c.s,
+            'entity': f['entity'],
             'trait': f['trait'], 'observed': {'impl': f.get('impl'), 'xml': f.get('xml')},
             'case': {'what': 'trait', 'entity_kind': f.get('kind'), 'trait': f['trait'], 'difference': what,
                      'is_ref': bool(f.get('is_ref')), 'cxx': cxx, 'std': std}})
     for u in unproved[:3]:
         chk.report_unproved('impl≠model: trait dump differs from Gen.Traits.traitTable while agreeing with the XML',
-                            dict(u, config={'cxx': cxx, 'std': std}, schema_xml=xml))
+                            dict(u, config={'cxx': cxx, 'std': std}, schema_xml=xml, schema_dict=c.s))
     return n
 
 
@@ -273,43 +274,54 @@ def run(chk):
 
 
 def replay(chk, rep):
-    """re-run one recorded case: schema XML + configuration"""
-    import subprocess
+    """re-run one recorded case against the current tree: schema (dict + XML) -> sbeppc -> dumper under the
+    recorded configuration; prints implementation, model and XML/spec values of the recorded trait"""
+    import shutil
     import tempfile
     from .. import sbeppc
-    xml = rep.get('schema_xml') or rep.get('detail', {}).get('schema_xml')
-    if not xml:
-        print('replay has no schema_xml (theorem-level failure): rebuild with lake build ' + MODULE)
+    det = rep.get('detail') if isinstance(rep.get('detail'), dict) else {}
+    sch = rep.get('schema_dict') or det.get('schema_dict')
+    if not sch:
+        print(json.dumps({k: v for k, v in rep.items() if k != 'schema_xml'}, indent=1)[:3000])
+        print('no schema recorded (theorem-level failure): rebuild with `lake build %s`' % MODULE)
         return 1
-    cfg = rep.get('config') or rep.get('detail', {}).get('config') or {'cxx': 'g++', 'std': 'c++17'}
+    cfg = rep.get('config') or det.get('config') or {'cxx': 'g++', 'std': 'c++17'}
+    ent = rep.get('entity') or det.get('entity')
+    trait = rep.get('trait') or det.get('trait')
     exe, log = sbeppc.build(chk)
+    model = chk.model_exe()
     d = tempfile.mkdtemp(prefix='c18replay', dir=core.BUILD)
     try:
-        p = os.path.join(d, 'schema.xml')
-        open(p, 'w').write(xml)
-        rc, out = sbeppc.run(exe, p, os.path.join(d, 'gen'))
-        print('sbeppc rc=%s %s' % (rc, out[:300]))
-        print('entity=%s trait=%s recorded=%s' % (rep.get('entity'), rep.get('trait'), json.dumps(rep.get('observed'))))
-        # the dumper needs the schema dict; rebuild it from the XML for the recorded entity only
-        ent, trait = rep.get('entity'), rep.get('trait')
-        if rc == 0 and ent and trait and not trait.startswith(('walk', '<')):
-            import xml.etree.ElementTree as ET
-            pkg = ET.fromstring(xml).get('package')
-            kind = rep.get('case', {}).get('entity_kind')
-            tag = '::%s::schema' % pkg if ent == 'schema' else '::%s::schema::%s' % (pkg, ent.replace('.', '::'))
-            src = os.path.join(d, 'one.cpp')
-            open(src, 'w').write('#include <%s/%s.hpp>\n#include "c18_dump.hpp"\nint main(){ c18::dump_%s<%s>(std::cout, "%s"); }\n'
-                                 % (pkg, pkg, kind, tag, ent))
-            rc2, log2 = core.sh([cfg['cxx'], '-std=' + cfg['std'], '-w', '-I' + os.path.join(d, 'gen'),
-                                 '-I' + os.path.join(core.REPO, 'sbepp/src'), '-I' + os.path.join(core.VERIF, 'harness'),
-                                 src, '-o', os.path.join(d, 'one')])
-            if rc2 == 0:
-                rc3, out3 = core.sh([os.path.join(d, 'one')])
-                path, kv = G.parse_record(out3.strip())
-                print('impl now: %s=%s   xml/spec: %s' % (trait, kv.get(trait), rep.get('observed', {}).get('xml')))
-                return 0 if kv.get(trait) == rep.get('observed', {}).get('xml') else 1
-            print(log2[-1500:])
-        return 1
+        c = wire.SchemaCase(chk, 0, sch, d)
+        rc = c.compile_schema(exe)
+        print('sbeppc rc=%s %s' % (rc, c.out[:300]))
+        if rc != 0:
+            return 1
+        dexe, log = G.build_dumper(c, cfg['cxx'], cfg['std'])
+        if dexe is None:
+            print('dumper does not compile:\n' + log[-2000:])
+            return 1
+        rc, out = core.sh([dexe], timeout=120)
+        rows, walk = G.parse_dump(out)
+        exp = G.Oracle(sch).expected()
+        mrows = {}
+        if model:
+            rc, mo = core.sh([model], input='traits ' + c.sexp + '\n', timeout=300)
+            mrows = G.parse_model(mo.strip()) or {}
+        if trait and trait.startswith('walk'):
+            wt, wm = G.Oracle(sch).walk()
+            key = 'walk_types' if 'type_tags' in trait else 'walk_messages'
+            got = [x for x in walk.get(key, '').split('|') if x]
+            want = wt if key == 'walk_types' else wm
+            ok = sorted(got) == sorted(want) if key == 'walk_types' else got == want
+            print('%s impl=%s\n spec=%s' % (key, got[:3], want[:3]))
+            return 0 if ok else 1
+        i = rows.get(ent, {})
+        prim = i.get('primitive_type')
+        iv = norm(trait, i.get(trait), prim)
+        mv = norm(trait, mrows.get(ent, {}).get(trait), prim)
+        ev = norm(trait, exp.get(ent, (None, {}, set()))[1].get(trait), prim)
+        print('entity=%s trait=%s\n impl =%s\n model=%s\n spec =%s' % (ent, trait, iv, mv, ev))
+        return 0 if iv == ev and (iv == mv or trait in G.IMPL_ONLY) else 1
     finally:
-        import shutil
         shutil.rmtree(d, ignore_errors=True)
